@@ -196,10 +196,18 @@ void Terminal::Impl::executeExitCmd(SessionContext *s, const Args &)
     if (!(s->options & kQuietMode))
         s->wp_conn->send(s->token, "Bye!\r\n");
 
+    //! NOTE: the session may be gone by the time the task runs (a second "exit" in the
+    //! same input, or the peer closed the connection first), and its SessionContext
+    //! goes back to the pool. So keep the token, not the pointer, and look it up again.
+    auto st = s->token;
     wp_loop_->runNext(
-        [this, s] {
-            s->wp_conn->endSession(s->token);
-            deleteSession(s->token);
+        [this, st] {
+            auto s = sessions_.at(st);
+            if (s == nullptr)
+                return;
+
+            s->wp_conn->endSession(st);
+            deleteSession(st);
         },
         __func__
     );
